@@ -207,7 +207,7 @@ func runFamily(c *core.Check, name, bound string, delims int, gen func(emit func
 				c.Nontrivial(s, o)
 			}
 			if r.kind != "" {
-				collect(core.Failure{Family: name, Input: text, Config: cfg.String(), Kind: r.kind, What: r.what, Order: idx})
+				collect(c, core.Failure{Family: name, Input: text, Config: cfg.String(), Kind: r.kind, What: r.what, Order: idx})
 			}
 			if o == "default" && idx%40009 == 11 {
 				c.Sample(map[string]any{"family": name, "ctx": ctx, "in": text, "out": out})
@@ -256,7 +256,10 @@ func failLess(a, b *core.Failure) bool {
 	return a.Config < b.Config
 }
 
-func collect(f core.Failure) {
+func collect(c *core.Check, f core.Failure) {
+	if c.Known(f) {
+		return // listed cases are counted per class and never take one of the perGroup places
+	}
 	names := map[string]bool{}
 	for _, m := range tagNameRe.FindAllStringSubmatch(f.Input, -1) {
 		names[strings.ToLower(m[1])] = true
@@ -300,7 +303,7 @@ func flush(c *core.Check) {
 	sort.Strings(sigs)
 	for _, s := range sigs {
 		for _, f := range groups[s].kept {
-			c.Fail(f)
+			c.FailUnlisted(f)
 		}
 	}
 	c.Extra["failing_evaluations"] = total
